@@ -128,8 +128,9 @@ impl<T: Alignment> Write for AlignedCursor<T> {
         }
 
         let cap = self.vec.len().saturating_mul(std::mem::size_of::<T>());
-        let rem = cap.saturating_sub(self.pos);
-        if rem < len {
+        // `self.pos + len` cannot overflow because of the check above; note
+        // that the position can be beyond the capacity even if `len` is zero.
+        if cap < self.pos + len {
             self.vec.resize(
                 (self.pos + len).div_ceil(std::mem::size_of::<T>()),
                 T::default(),
